@@ -18,7 +18,7 @@ HARNESSES = [
     H("c19_dump::g_dump_fresh", desc="dump(): threads resumed exactly once, before the soft-error stream; nothing stopped at return; SIGCONT sent", loops={"MINIDUMP_EXCEPTION": 20, "alloc_from_array": 8}, timeout=2400, est_gb=8, mem_gb=24),
     H("c19_dump::g_dump_handles_fail", desc="dump() with a failing best-effort step: same", loops={"MINIDUMP_EXCEPTION": 20, "alloc_from_array": 8}, timeout=2400, est_gb=8, mem_gb=24, tier="thorough"),
     S("c03_plain_drop", "1 thread, clean attach, drop (Drop path: ~12 min)", "thorough"), S("c03_plain_resume", "1 thread, clean attach, resume, drop"),
-    S("c03_one_signal", "a signal arrives before the SIGSTOP"), S("c03_two_signals_resume", "two signals arrive before the SIGSTOP"),
+    S("c03_one_signal_resume", "a signal arrives before the SIGSTOP; explicit resume, then drop"), S("c03_one_signal", "a signal arrives before the SIGSTOP; Drop path only (~12 min)", "thorough"), S("c03_two_signals_resume", "two signals arrive before the SIGSTOP"),
     S("c03_eintr", "waitpid interrupted (Drop path: ~12 min)", "thorough"), S("c03_signal_eintr", "signal, then EINTR", "thorough"),
     S("c03_attach_fails", "attach fails (thread gone)"), S("c03_dies_while_attaching", "thread exits during the wait"),
     S("c03_signal_then_dies", "signal re-injected, then the thread exits", "thorough"), S("c03_wait_fails", "waitpid fails: detach"),
